@@ -481,6 +481,46 @@ func genConflicts(t *rapid.T, c *Case, base, rounds int) {
 	}
 }
 
+// genTwins adds 1..2 instruments with the SAME instrument name and unit as an
+// existing one but another data shape (monotonic sum / other sum / gauge /
+// histogram), in another scope or - the SDK keeps them apart by kind - in the
+// same one. Their exported names differ whenever the _total rule separates
+// them; then both must be exposed, each with its own name, type and values.
+func genTwins(t *rapid.T, c *Case, base, rounds int) {
+	n := rapid.IntRange(1, 2).Draw(t, "ntwins")
+	for k := 0; k < n && len(c.Insts) < 10; k++ {
+		oi := rapid.IntRange(0, len(c.Insts)-1).Draw(t, "torigin")
+		if rapid.IntRange(0, 3).Draw(t, "ttotal") == 2 && len(c.Insts[oi].Name) < 240 && !strings.HasSuffix(c.Insts[oi].Name, "total") {
+			// where trimming a trailing "total" matters
+			c.Insts[oi].Name += rapid.SampledFrom([]string{"_total", ".total", "_total"}).Draw(t, "ttail")
+		}
+		o := c.Insts[oi]
+		p := genInst(t, len(c.Insts), base, len(c.Scopes), rounds, nil)
+		p.Name, p.Unit = o.Name, o.Unit
+		if !isCounter(o.Kind) && rapid.IntRange(0, 3).Draw(t, "tcounter") != 1 {
+			// the pair the _total rule separates: a monotonic sum and something else
+			p.Kind = rapid.SampledFrom([]string{"i64counter", "f64counter", "i64ocounter", "f64ocounter"}).Draw(t, "tckind")
+			p = regenObs(t, p, rounds)
+		} else if shape(p.Kind) == shape(o.Kind) {
+			var other []string
+			for _, kd := range kinds {
+				if shape(kd) != shape(o.Kind) {
+					other = append(other, kd)
+				}
+			}
+			p.Kind = rapid.SampledFrom(other).Draw(t, "tkind")
+			p = regenObs(t, p, rounds)
+		}
+		if !isHist(p.Kind) || isObservable(p.Kind) {
+			p.ExpSize = 0
+		}
+		if rapid.IntRange(0, 2).Draw(t, "tscope") == 1 {
+			p.Scope = o.Scope
+		}
+		c.Insts = append(c.Insts, p)
+	}
+}
+
 // regenObs makes Obs consistent with a kind that was changed after genInst.
 func regenObs(t *rapid.T, in Inst, rounds int) Inst {
 	in.Obs = nil
@@ -598,6 +638,9 @@ func genCase(conc bool, conflicts int) func(t *rapid.T) Case {
 				prev = &c.Insts[i-1]
 			}
 			c.Insts = append(c.Insts, genInst(t, i, base, ns, rounds, prev))
+		}
+		if d := rapid.IntRange(0, 9).Draw(t, "twins"); d == 3 || d == 4 || d == 6 {
+			genTwins(t, &c, base, rounds)
 		}
 		// (rapid favours the ends of a range: count from the middle)
 		if d := rapid.IntRange(0, 9).Draw(t, "conflicts"); (d+5)%10 < conflicts/10 {
